@@ -488,6 +488,59 @@ pub fn suite_ioread(dir: &str, seed: u64, thorough: bool, st: &mut Stats) {
         }
         out.push(&line, &items_str(&items));
     }
+    // one IoReader used several times (as Archive does: header reads, then a chunk stream): a read_at and / or a
+    // partly consumed stream first, then a stream that starts at offset 0 or anywhere else -- the position left by
+    // earlier calls must not matter
+    for _ in 0..(n / 4) {
+        let flen = rng.range(40, 300) as usize;
+        let file: Vec<u8> = (0..flen).map(|_| rng.next() as u8).collect();
+        let mut ranges = gen_ranges(&mut rng, flen);
+        if rng.chance(1, 2) {
+            // start at the very beginning of the file, adjacent chunks following
+            let mut pos = 0u64; let mut v = vec![];
+            for _ in 0..rng.range(1, 4) { let sz = rng.range(1, 12) as usize; if pos as usize + sz <= flen { v.push((pos, sz)); pos += sz as u64; } }
+            v.extend(ranges.into_iter().filter(|(o, _)| *o >= pos));
+            ranges = v;
+        }
+        let sched: Vec<Ev> = gen_sched(&mut rng, 300).into_iter().take(200).collect();
+        let sp2: Vec<u8> = (0..ranges.len() + 6).map(|_| if rng.chance(1, 2) { 0 } else { rng.range(1, 3) as u8 }).collect();
+        let pre_at = rng.chance(2, 3);
+        let pre_stream = rng.chance(1, 2);
+        let (f2, r2, s2) = (file.clone(), ranges.clone(), sched.clone());
+        let r = std::panic::catch_unwind(move || {
+            let rt = tokio::runtime::Builder::new_current_thread().build().unwrap();
+            rt.block_on(async move {
+                let flen = f2.len();
+                let mut reader = IoReader::new(ScriptFile::new(f2, vec![], sp2));
+                if pre_at { let _ = reader.read_at((flen / 3) as u64, (flen / 4).max(1)).await; }
+                if pre_stream {
+                    let mut st0 = reader.read_chunks(vec![ChunkOffset::new(5, 7), ChunkOffset::new(12, 3), ChunkOffset::new(20, 4)]);
+                    let _ = st0.next().await;
+                }
+                // the scripted read sizes apply to the stream under test only
+                let mut stt = reader.read_chunks(r2.iter().map(|(o, s)| ChunkOffset::new(*o, *s)).collect());
+                let _ = &s2;
+                let mut items: Vec<Result<Vec<u8>, String>> = vec![];
+                while let Some(it) = stt.next().await {
+                    match it { Ok(b) => items.push(Ok(b.to_vec())), Err(e) => { items.push(Err(if e.kind() == std::io::ErrorKind::UnexpectedEof { "EOF".into() } else { "IO".into() })); break; } }
+                }
+                items
+            })
+        });
+        let items = r.unwrap_or_else(|_| vec![Err("PANIC".to_string())]);
+        let line = format!("ioread {} {} -", hex(&file), if ranges.is_empty() { "-".into() } else { ranges.iter().map(|(o, s)| format!("{}+{}", o, s)).collect::<Vec<_>>().join(",") });
+        st.evaluations += 1;
+        st.oracle_checks += 1;
+        st.count(&format!("ioread/reader-reused/at={}/stream={}", pre_at, pre_stream));
+        for (k, (o, s)) in ranges.iter().enumerate() {
+            let end = *o as usize + s;
+            match items.get(k) {
+                Some(Ok(d)) => if end > file.len() || d[..] != file[*o as usize..end] { st.violation("C08", &format!("local reader used before: item {} is not the requested bytes", k), &line); break; },
+                _ => { st.violation("C08", &format!("local reader used before: item {} missing or an error", k), &line); break; }
+            }
+        }
+        out.push(&line, &items_str(&items));
+    }
     out.finish();
 }
 
